@@ -748,14 +748,22 @@ def vp_watch(ex, st, th, a):
     n = ex.need_int(st, a[1])
     o = st.find(addr)
     if o is not None:
-        st.watch[o.base] = [addr - o.base, addr - o.base + n, set(), ex.cstring(st, a[2])]
+        st.watch[o.base] = [addr - o.base, addr - o.base + n, set(), ex.cstring(st, a[2]), set()]
 
 
 @model('vp_concolic_stop')
 def vp_concolic_stop(ex, st, th, a):
+    # remember which watched bytes were read up to here (later exports also read them)
+    for w in st.watch.values():
+        st.flags['reads:' + w[3]] = frozenset(w[4])
     if st.cmodel is not None:
         st.model = dict(st.cmodel)
         st.cmodel = None
+
+
+@model('vp_sched_point')
+def vp_sched_point(ex, st, th, a):
+    return None
 
 
 @model('vp_concrete')
